@@ -48,7 +48,7 @@ CHECKS = {
         "groups": [
             {"name": "c13", "run": "^TestC13_", "shards": {"quick": 8, "thorough": 16},
              "timeout": {"quick": 600, "thorough": 3000},
-             "checks": ["c13-batcher", "c13-limits"]},
+             "checks": ["c13-batcher", "c13-limits", "c13-webtransport"]},
         ],
     },
     "C15": {
